@@ -278,3 +278,24 @@ Definition pc_why (root : pc_node) (cwd : pc_path) (upd : option (list N)) (rq :
   | PReject (RBadFile EINVAL) => 8
   | PReject ROutside => 9
   end.
+
+(* ---------------------------------------------------------------- specification vocabulary (used by the theorems) *)
+Definition pc_dir_at (root : pc_node) (p : pc_path) : Prop := exists es, pc_descend root p = Some (PDir es).
+
+(* a path that names an existing node that is not a symbolic link, reached
+   through real directory entries only *)
+Definition pc_physical (root : pc_node) (p : pc_path) : Prop :=
+  exists n, pc_descend root p = Some n /\ pc_is_link n = false.
+
+Definition pc_plain (c : pc_name) : Prop := pc_is_dot c = false /\ pc_is_dotdot c = false.
+Definition pc_piece_ok (c : pc_name) : Prop := c <> [] /\ ~ In c_slash c.
+Definition pc_name_ok (c : pc_name) : Prop := pc_piece_ok c /\ pc_plain c.
+
+(* no name in the tree contains a NUL byte (true of every real file system) *)
+Definition pc_nonul_names (root : pc_node) : Prop :=
+  forall p n, pc_descend root p = Some n -> Forall (fun c => ~ In 0 c) p.
+
+(* the percent-encoding of every byte: "%XY" with upper-case hex digits *)
+Definition pc_hexdigit (n : N) : N := if n <? 10 then 48 + n else 55 + n.
+Definition pc_enc_byte (b : N) : list N := [37; pc_hexdigit (b / 16); pc_hexdigit (b mod 16)].
+Definition pc_enc (s : list N) : list N := flat_map pc_enc_byte s.
